@@ -11,6 +11,7 @@ open Py Spec Model Secp
 theorem p_lt : p < 2 ^ 256 := by decide
 theorem p_lt' : p < 256 ^ 32 := by decide
 theorem n_lt' : n < 256 ^ 32 := by decide
+theorem pow256_32 : (256 : Nat) ^ 32 = 2 ^ 256 := by decide
 theorem p_odd : p % 2 = 1 := by decide
 theorem p_pos : 0 < p := by decide
 
@@ -67,10 +68,8 @@ theorem sq_neg_mod (m y : Nat) (h : y ≤ m) : (m - y) * (m - y) % m = y * y % m
 
 theorem onCurve_neg (x y : Nat) (h0 : 0 < y) (hy : y < p) :
     onCurve (some (x, p - y)) = onCurve (some (x, y)) := by
-  unfold onCurve
   have h1 : p - y < p := by omega
-  rw [sq_neg_mod p y (Nat.le_of_lt hy)]
-  simp [h1, hy]
+  simp only [onCurve, sq_neg_mod p y (Nat.le_of_lt hy), h1, hy]
 
 /-! ### `liftX` and `sqrtAll` -/
 
@@ -100,14 +99,32 @@ theorem sqrtAll_of_liftX (x y : Nat) (h0 : 0 < y) (hy : y < p)
     ∃ r, 0 < r ∧ r < p ∧ (y = r ∨ y = p - r) ∧
       sqrtAll ((x ^ 3 + 7) % p) = if r < p - r then [r, p - r] else [p - r, r] := by
   obtain ⟨_, hsq, hev⟩ := liftX_some x _ hl
-  refine ⟨powMod ((x ^ 3 + 7) % p) ((p + 1) / 4) p, ?_, powMod_lt _ _ _ p_pos, ?_, ?_⟩
-  all_goals
-    generalize powMod ((x ^ 3 + 7) % p) ((p + 1) / 4) p = r at *
-  · have := p_odd
-    split at hev <;> split at hev <;> omega
-  · have := p_odd
-    have hr : r < p := by assumption
-    split at hev <;> split at hev <;> omega
-  · sorry
+  have hr := powMod_lt ((x ^ 3 + 7) % p) ((p + 1) / 4) p p_pos
+  have hs : sqrtAll ((x ^ 3 + 7) % p) =
+      (let r := powMod ((x ^ 3 + 7) % p) ((p + 1) / 4) p
+       if r * r % p ≠ (x ^ 3 + 7) % p % p then []
+       else if r = 0 then [0]
+       else if r < p - r then [r, p - r] else [p - r, r]) := rfl
+  rw [hs]
+  generalize powMod ((x ^ 3 + 7) % p) ((p + 1) / 4) p = r at *
+  have hp := p_odd
+  have hr0 : 0 < r := by split at hev <;> split at hev <;> omega
+  refine ⟨r, hr0, hr, ?_, ?_⟩
+  · split at hev <;> split at hev <;> omega
+  · have hne : r ≠ 0 := by omega
+    simp only [Nat.mod_mod, hsq, ne_eq, not_true_eq_false, if_false, hne]
+
+/-! ### `VerifyingKey.from_string` on the 64-byte form of a curve point -/
+
+theorem verifyingKey_ok (x y : Nat) (hx : x < p) (hy : y < p) (hc : onCurve (some (x, y)) = true) :
+    verifyingKeyFromString (beBytes 32 x ++ beBytes 32 y) = .ok (x, y) := by
+  have hx' : x < 256 ^ 32 := Nat.lt_trans hx p_lt'
+  have hy' : y < 256 ^ 32 := Nat.lt_trans hy p_lt'
+  unfold verifyingKeyFromString
+  have ht : (beBytes 32 x ++ beBytes 32 y).take 32 = beBytes 32 x := by
+    rw [List.take_left']; simp
+  have hdr : (beBytes 32 x ++ beBytes 32 y).drop 32 = beBytes 32 y := by
+    rw [List.drop_left']; simp
+  simp [ht, hdr, Py.ofBE_beBytes 32 x hx', Py.ofBE_beBytes 32 y hy', hc]
 
 end KeyLemmas
